@@ -110,7 +110,8 @@ reg("C06", exc_ops=WRITE_OPS | RULE_OPS, nontrivial=nt_we, hook="potential",
     profile={"raw": 0.0, "long": 0.15, "adversarial": 0.4}, title="Automatic creation")
 reg("C07", exc_ops=set(), nontrivial=nt_links, hook="network", obs_fail=False,
     weights={"AddLinks": 24, "IndexBatchCrawl": 16, "CreateWe": 10, "AddPrefix": 10, "RemovePrefix": 5, "DeleteWe": 5},
-    profile={"raw": 0.0, "long": 0.1, "nlrus": 12, "bigids": 0.4}, title="Webentity network")
+    profile={"raw": 0.0, "long": 0.1, "nlrus": 12, "bigids": 0.4, "prefixlinks": 0.3, "siblinks": 0.25},
+    title="Webentity network")
 reg("C08", exc_ops=set(), nontrivial=nt_links, hook="welinks", obs_fail=False,
     weights={"AddLinks": 24, "IndexBatchCrawl": 16, "CreateWe": 10, "AddPrefix": 6, "RemovePrefix": 5, "DeleteWe": 5},
     profile={"raw": 0.0, "long": 0.1, "nlrus": 12, "homelinks": 0.3, "prefixlinks": 0.4, "siblinks": 0.3}, n=(130, 1000), steps=(14, 20),
@@ -118,7 +119,8 @@ reg("C08", exc_ops=set(), nontrivial=nt_links, hook="welinks", obs_fail=False,
 reg("C09", exc_ops=set(), nontrivial=nt_pages, hook="pagination", obs_fail=False,
     weights={"Paginate": 40, "AddPage": 30, "AddPages": 8, "CreateWe": 8, "AddPrefix": 8, "AddLinks": 4,
              "IndexBatchCrawl": 4, "Clear": 0, "DeleteWe": 2, "RemovePrefix": 2, "MovePrefix": 2},
-    profile={"raw": 0.0, "long": 0.2, "nlrus": 18, "extend": 0.3, "continue": 0.55, "concentrate": 1}, steps=(24, 32),
+    profile={"raw": 0.0, "long": 0.2, "nlrus": 18, "extend": 0.3, "continue": 0.55, "concentrate": 1,
+             "nestsib": 0.6}, steps=(24, 32),
     title="Page pagination")
 reg("C10", exc_ops=set(), nontrivial=nt_links, hook="paglinks", obs_fail=False,
     weights={"PagLinks": 40, "AddLinks": 30, "IndexBatchCrawl": 12, "AddPage": 12, "CreateWe": 12, "AddPrefix": 8,
@@ -570,7 +572,8 @@ def check_c18(pid, cfg, tier, seed, work, t0):
         raise Machinery("TLC reports an error in MC_crash:\n" + mcs[0].get("tail", ""))
     nh, steps = ((10, 7), (80, 10))[ti]
     prof = dict(BASE_PROFILE)
-    prof.update({"nlrus": 8, "long": 0.8, "raw": 0.1,
+    # multi-block stems only, exact multiples of the block payload prominent: the shapes torn writes depend on
+    prof.update({"nlrus": 8, "long": 0.8, "raw": 0.1, "lens": [75, 148, 149, 222, 222, 223, 296, 297],
                  "weights": {"Reopen": 0, "Clear": 0, "Paginate": 0, "PagLinks": 0, "AddLinks": 20,
                              "IndexBatchCrawl": 14, "AddRule": 6, "CreateWe": 8}})
     hists, rows = [], []
